@@ -88,6 +88,21 @@ CLAIMED = {
              'around the definition for unbounded before/after over symbolic lines; get_module_names partitions tokens '
              'into definitions/references.',
         note='Thin: that every Name points at its own token and is_definition() matches Python binding is NOT decided.'),
+    'C18': dict(
+        text='get_context over ALL cursor positions of a corpus of valid files: the real Script.get_context and '
+             'parso get_leaf_for_position are interpreted with unconstrained symbolic (line, column); the solver '
+             'partitions the infinite position space into the regions the code distinguishes and each region on a code '
+             'token is compared with the innermost def/class body computed from CPython ast; full_name assembly over '
+             'symbolic qualified names.',
+        note='parent() chains and __qualname__ by execution are NOT decided; domain = positions inside single-line '
+             'code tokens of a 5-file corpus (2 files quick + async file); header positions are a recorded known finding.'),
+    'C19': dict(
+        text='The real project walk (recurse_find_python_folders_and_files, gitignored_paths, expand_relative_ignore_'
+             'paths) is executed over a stub directory tree with symbolic folder/file/entry names: a folder is pruned / a '
+             'file skipped iff a rule of a .gitignore above it names it (path-component exact) or it is a built-in '
+             'ignored folder; Project._search_func hands every python file to the identifier scan.',
+        note='os.walk/FolderIO.walk, module loading and the per-module search are stubs; completeness of get_module_'
+             'names on real trees, file limits and the regex pre-filter are not decided in this round.'),
     'C20': dict(
         text='save()/load() round trip of every constructor setting with a JSON model (identity on JSON values, '
              'TypeError otherwise) over symbolic strings / Path values; composition of the effective sys.path '
@@ -101,5 +116,5 @@ NOT_APPLICABLE = {
            'and file-system timestamp granularity; jedi itself contributes no arithmetic/string/state-machine logic '
            'that can be encoded - a stub-everything model would verify the stub (DESIGN.md §5).',
 }
-for _p in ('C02', 'C03', 'C05', 'C06', 'C18', 'C19'):
+for _p in ('C02', 'C03', 'C05', 'C06'):
     NOT_APPLICABLE[_p] = _PENDING
